@@ -21,6 +21,8 @@ MCPoolAt(i) ==
   IF i <= 3 THEN {Assign("u", Up("q")), RenderT(S("a1"), "none", NilE, "", <<>>), Include(S("b1"), "none", NilE, "", <<>>), Include(S("b2"), "none", NilE, "", <<>>),
                   Include(S("c1"), "none", NilE, "", <<>>), RenderT(S("b1"), "none", NilE, "", <<WArg("y", V("q"))>>), NOut(P(V("u"))),
                   RenderT(S("card"), "none", NilE, "", <<>>), Include(S("card"), "none", NilE, "", <<>>), RenderT(S("card"), "with", V("x"), "", <<>>),
-                  NOut(F(V("q"), <<Fl("downcase", <<>>)>>))}
+                  NOut(F(V("q"), <<Fl("downcase", <<>>)>>)),
+                  \* the same partial twice with the same argument names, then a read of such a name
+                  Include(S("b1"), "none", NilE, "", <<WArg("y", V("q"))>>), Include(S("b1"), "none", NilE, "", <<WArg("y", V("x"))>>), NOut(P(V("y")))}
   ELSE {}
 =============================================================================
